@@ -532,7 +532,9 @@ pub fn format_block(ctx: &Context, block: &Block, shape: Shape) -> Block {
 
         // If this is the first stmt, then remove any leading newlines
         if !found_first_stmt {
-            if let FormatNode::Normal = ctx.should_format_node(&stmt) {
+            // NOTE: the formatted statement no longer carries positions, so whether it is in range
+            // must be decided on the original statement
+            if !stmt_untouched {
                 stmt = stmt_remove_leading_newlines(stmt);
             }
             found_first_stmt = true;
@@ -612,8 +614,7 @@ pub fn format_block(ctx: &Context, block: &Block, shape: Shape) -> Block {
                 !matches!(ctx.should_format_node(last_stmt), FormatNode::Normal);
             let mut last_stmt = format_last_stmt(&ctx, last_stmt, shape);
             // If this is the first stmt, then remove any leading newlines
-            if !found_first_stmt && matches!(ctx.should_format_node(&last_stmt), FormatNode::Normal)
-            {
+            if !found_first_stmt && !last_stmt_untouched {
                 last_stmt = last_stmt_remove_leading_newlines(last_stmt);
             }
 
